@@ -672,7 +672,11 @@ class _PairsClassifierMixin(BaseMetricLearner, ClassifierMixin):
       cum_tn_inverted = stable_cumsum(y_ordered[::-1] == -1)
       cum_tn = np.concatenate([[0.], cum_tn_inverted])[::-1]
       cum_accuracy = (cum_tp + cum_tn) / n_samples
-      imax = np.argmax(cum_accuracy)
+      # pairs with equal scores cannot be separated by a threshold: a cut is
+      # only possible after the last pair of a group of ties
+      cuts = np.concatenate([[True], scores_sorted[1:-1] != scores_sorted[2:],
+                             [True]])
+      imax = np.flatnonzero(cuts)[np.argmax(cum_accuracy[cuts])]
       # we set the threshold to the lowest accepted score
       # note: we are working with negative distances but we want the threshold
       # to be with respect to the actual distances so we take minus sign
